@@ -105,7 +105,8 @@ def plan(tier, seed):
     KG = [['sigint'], ['eof'], ['invalid-sigint'], ['line-raises', 'unsupported-form']]
     if tier == 'quick':
         return [{'year': y, 'family': f, 'idx': i, 'kinds': kg} for i, (y, f) in
-                enumerate([(2023, 'F0'), (2022, 'F1'), (2021, 'F2'), (2023, 'F8'), (2022, 'F4'), (2023, 'F3'), (2021, 'F9'), (2022, 'F10')]) for kg in KG]
+                enumerate([(2023, 'F0'), (2022, 'F1'), (2021, 'F2'), (2023, 'F8'), (2022, 'F4'), (2023, 'F3'), (2021, 'F9'), (2022, 'F10')]) for kg in KG] + \
+               [{'kind': 'pty', 'year': y, 'family': f, 'idx': 100 + i, 'nk': 1} for i, (y, f) in enumerate([(2023, 'F0'), (2021, 'F3')])]
     sp = []
     from hv import scen
     i = 0
@@ -115,10 +116,13 @@ def plan(tier, seed):
                 for kg in KG:
                     sp.append({'year': y, 'family': f, 'idx': i, 'rep': rep, 'kinds': kg})
                 i += 1
+            sp.append({'kind': 'pty', 'year': y, 'family': f, 'idx': 1000 + i, 'nk': 6})
     return sp
 
 
 def run_shard(spec, tier, seed):
+    if spec.get('kind') == 'pty':
+        return run_pty_shard(spec, tier, seed)
     from hv import hx, scen, drive
     res = Result()
     year, fam = spec['year'], spec['family']
@@ -289,4 +293,129 @@ def finalize(res, tier):
             res.inconclusive.append(f'{k} = {c.get(k, 0)}')
     if c.get('answers_checked', 0) < 1000:
         res.inconclusive.append('fewer than 1000 answers checked for persistence')
+    if c.get('pty_faults_sigint', 0) < 2 or c.get('pty_faults_eof', 0) < 2:
+        res.inconclusive.append('real-terminal faults not exercised')
     return {'exhaustive': True, 'fault_points': {k[7:]: v for k, v in c.items() if k.startswith('faults_')}}
+
+
+# ------------------------------------------------------------------ real process, real terminal
+def pty_session(year, forms, path, answer_fn, fault=None, timeout=120):
+    """`python -m habutax solve ... --prompt-missing --writeback-input` as a child
+    process on a pseudo-terminal.  fault = ('sigint'|'eof', k): at the k-th
+    question a real Ctrl-C (the terminal raises SIGINT) or Ctrl-D (end of
+    input) is typed.  Returns (exit status or None on watchdog, answers given)."""
+    import os
+    import pty
+    import select
+    import time
+    from hv.common import REPO
+    args = ['/venv/bin/python', '-m', 'habutax', 'solve', path, '--year', str(year), '--prompt-missing', '--writeback-input']
+    for f in forms:
+        args += ['--form', f]
+    env = dict(os.environ, PYTHONPATH=REPO, PYTHONDONTWRITEBYTECODE='1', PYTHONWARNINGS='ignore')
+    pid, fd = pty.fork()
+    if pid == 0:
+        os.chdir('/tmp')
+        os.execve(args[0], args, env)
+    given = []
+    buf = b''
+    n = 0
+    t0 = time.time()
+    status = None
+    try:
+        while True:
+            if time.time() - t0 > timeout:
+                os.kill(pid, 9)
+                os.waitpid(pid, 0)
+                return None, given
+            r, _, _ = select.select([fd], [], [], 0.5)
+            if fd in r:
+                try:
+                    chunk = os.read(fd, 65536)
+                except OSError:
+                    chunk = b''
+                if not chunk:
+                    break
+                buf += chunk
+            else:
+                done = os.waitpid(pid, os.WNOHANG)
+                if done[0] == pid:
+                    status = os.waitstatus_to_exitcode(done[1])
+                    pid = None
+                    break
+                continue
+            text = buf.decode('utf-8', 'replace')
+            if text.rstrip(' ').endswith('(Ctrl-C to abort):') or text.rstrip(' ').endswith('try again?:'):
+                m = BANNER.findall(text)
+                name = m[-1] if m else None
+                if text.rstrip(' ').endswith('(Ctrl-C to abort):'):
+                    n += 1
+                buf = b''
+                if fault and n == fault[1]:
+                    os.write(fd, b'\x03' if fault[0] == 'sigint' else b'\x04')
+                    continue
+                ans = answer_fn(name)
+                given.append((name, ans))
+                os.write(fd, ans.encode() + b'\n')
+        if pid is not None:
+            _, st = os.waitpid(pid, 0)
+            status = os.waitstatus_to_exitcode(st)
+    finally:
+        try:
+            os.close(fd)
+        except OSError:
+            pass
+    return status, given
+
+
+def run_pty_shard(spec, tier, seed):
+    from hv import scen
+    res = Result()
+    year, fam = spec['year'], spec['family']
+    rng = rng_for('C20pty', seed, spec)
+    lookup = InputLookup(year)
+    key = f'c20pty:{seed}:{spec["idx"]}'
+    tmp = tempfile.mkdtemp(prefix='hv_c20p_')
+    try:
+        p0 = scen.Persona(year, fam, key)
+
+        def mk(p):
+            def a(name):
+                return p.answer(lookup.get(name))
+            a.lookup = lookup
+            return a
+        path = os.path.join(tmp, 'full.ini')
+        r0, given0 = session(year, p0.forms(), path, mk(p0))
+        n = r0.n_prompts
+        full = dict(given0)
+        ks = sorted(set([1, 2, n] + [rng.randint(1, n) for _ in range(spec['nk'])]))
+        for kind in ('sigint', 'eof'):
+            for k in ks:
+                path = os.path.join(tmp, 'p.ini')
+                write_ini(path, {})
+                p = scen.Persona(year, fam, key, overrides=full)
+                status, given = pty_session(year, p.forms(), path, mk(p), fault=(kind, k))
+                res.evaluations += 1
+                res.count('pty_faults_' + kind)
+                rp = {'engine': 'pty-fault', 'shard': spec, 'fault': [kind, k]}
+                if status is None:
+                    res.inconclusive.append(f'pty session {spec} {kind}@{k} hit the watchdog')
+                    continue
+                try:
+                    after = parse(path)
+                except Exception as e:
+                    res.violation(f'C20|pty-{kind}|file-not-well-formed', f'real terminal {kind} at question {k}: input file unparseable: {e}', rp)
+                    continue
+                given = [(nm, t) for nm, t in given if nm is not None]
+                lost = [(nm, t) for nm, t in given if after.get(_lk(nm)) != t.strip()]
+                res.count('answers_checked', len(given))
+                if given:
+                    res.distinct.add(f'pty|{spec["idx"]}|{kind}|{k}')
+                if lost:
+                    res.violation(f'C20|pty-{kind}|lost-answer', f'real terminal {kind} at question {k}: {len(given)} answers typed before; missing afterwards: {lost[:3]}', rp)
+                if len(res.samples) < 1:
+                    res.sample({'session': spec, 'fault': [kind, k], 'exit_status': status, 'answers_typed_before': len(given), 'keys_in_file_after': len(after)})
+    finally:
+        import shutil
+        shutil.rmtree(tmp, ignore_errors=True)
+    return res
